@@ -45,7 +45,7 @@ def run(ctx):
                              findings, 'threaded stress search', lambda fl: ('search-' + fl['kind'], ['found by the threaded search of harness/src/bin/h_atomic.rs (non-deterministic schedule; re-run `h_atomic stress <ms>`)', 'observed: ' + fl['detail']], '\n'.join(fl['ops'])))
     # the layer the server really uses: DiskCache::put / get from four threads of a process that is killed with SIGKILL, then a new DiskCache on the directory
     if cargo_harness(ctx, ['h_disk']):
-        rounds = 16 if ctx.quick() else 400
+        rounds = 18 if ctx.quick() else 400
         e = env_offline(); e['VERIF_SEED'] = str(ctx.seed)
         rc, out, dt = sh([harness_bin('h_disk'), 'run', str(rounds), os.path.join(ctx.work, 'disk.json')], env=e, timeout=7200)
         if rc != 0: ctx.broken.append('h_disk crashed: ' + out[-300:])
@@ -55,7 +55,7 @@ def run(ctx):
             ctx.evaluations += d['lookups_hit'] + d['lookups_miss']; ctx.distinct_nontrivial += d['rounds']; ctx.samples += d['samples'][:1]
             if d['rounds'] >= 16 and d['lookups_hit'] < d['rounds']: ctx.broken.append('h_disk: the killed processes stored almost nothing (%d complete entries in %d rounds): the crash monitor is vacuous' % (d['lookups_hit'], d['rounds']))
             monitor_failures(ctx, d['monitor_failures'], findings, 'DiskCache SIGKILL monitor', lambda fl: ('diskcache-' + fl['kind'], ['real cache::disk::DiskCache: a process storing 2-22 MB entries from four threads is killed with SIGKILL, a new DiskCache then reads every key (harness/src/bin/h_disk.rs run <rounds>; timing-dependent)', 'observed: ' + fl['detail']], '\n'.join(fl['ops'])))
-            ctx.rules.append('h_disk: rounds of {start a process that stores 2-22 MB entries and preprocessor entries through the real DiskCache from four threads, SIGKILL it after 20-300 ms, open the directory with a new DiskCache}: every key a miss or a complete entry of that key with matching stdout, no temporary file after the first access, store + lookup work; rounds share the directory')
+            ctx.rules.append('h_disk: rounds of {start a process that stores 2-22 MB entries and preprocessor entries through the real DiskCache from four threads, SIGKILL it after 20-300 ms (every third round under a 3 MB file-size limit, so larger bodies fail in the middle of their write: EFBIG as a stand-in for ENOSPC / EIO), open the directory with a new DiskCache}: every key a miss or a complete entry of that key with matching stdout, no temporary file after the first access, store + lookup work; rounds share the directory')
     ctx.assumptions += ['every DiskCache path holds the cache mutex around each LruDiskCache call and writes/reads bodies outside it (read from src/cache/disk.rs; stepping one call at a time is then faithful)',
                         'process crash only (no power loss: un-synced data is not modelled)', 'POSIX rename/unlink semantics']
     ctx.notes.append('not modelled: real thread scheduling inside tokio (exercised, not enumerated, by h_disk and the threaded stress search); power-loss durability')
